@@ -311,7 +311,10 @@ Definition exec (m : mode) (p : pc) (w : world) : outcome :=
                     (l_closing w) (l_closed w) (l_wakec w) (l_done w) (sock_closed w) true) (SS1 r)
   | SS1 r => Step w (if listed w then SC0 (RSrvShut2 r) else SS2 r)            (* for sessions: v.Close() *)
   | SS2 r => Step w (match active w with O => SS3 r | _ => LC0 (RSrvShut3 r) end)   (* for listeners: v.Close() *)
-  | SS3 r =>                                                                   (* drain delListener *)
+  | SS3 r =>                                                                   (* take the listeners' names from delListener: the model
+                                                                                  counts them; the tree (3e67085) empties the channel after every
+                                                                                  Listener.Close returned, the same from world0, where the listener
+                                                                                  is registered before it can send its name *)
       match active w with
       | O => Step w (SS4 r)
       | S a => match dellq w with
